@@ -449,3 +449,30 @@ def run(tier, seed, replay=None):
     r.phase("P4_correspondence", cases=len(cases), differing=len(bad))
     r.phase("P5_oracle", failing=sum(1 for o in oracle if o != "ok"))
     return r.finish()
+
+MANIFEST = {
+    "category": "proof",
+    "text": ("Coq theorems (no axioms) over an executable model of SchedulerCoordinator::super_tick and its runtime: canonical "
+             "runnable order, the partial pre-pass checkpoint (touched heads/frontiers, provenance lengths), restore, the "
+             "receipt-correlation rollback log, fault scoping, quarantine and trusted recovery. Proved for EVERY engine "
+             "(abstract commit that may leave garbage behind on failure): a pass that fails or unwinds at any head position, "
+             "for any failure kind (also after provenance append / tick advance / half-written correlations), returns exactly "
+             "the pre-pass runtime and provenance plus one correctly scoped fault (pass_frame, pass_atomic, "
+             "pass_fault_evidence_exact, correlation_rollback_exact); a successful pass commits exactly the runnable heads with "
+             "work in strictly ascending (worldline, head) order, +1 worldline tick per committed head, global tick +1 "
+             "(pass_success_shape, pass_canonical_order); Ok commits with rejected candidates never fault (rejection_is_receipt); "
+             "a faulted head is skipped and untouched until recovery without blocking others (quarantine_local, "
+             "recovery_restores_runnable, recovery_clears_runtime_fault); well-formedness is an API invariant "
+             "(runtime_wf_preserved). Tie: the real WorldlineRuntime/ProvenanceService/Engine are driven through the public API "
+             "on generated scripts (1-3 worldlines x 1-4 heads, budgets, ticketed submissions; failure injected at every "
+             "canonical position, kinds: typed engine error, executor panic, footprint violation, unauthorized instance op, "
+             "correlation refusal, provenance tick gap; on first/middle/last pass; followed by recovery and further passes) "
+             "and compared with the model line by line; independently the harness fingerprints runtime + provenance + engine "
+             "through public accessors before/after every pass and checks all-or-nothing, order, tick arithmetic, receipts, "
+             "quarantine and recovery on the implementation alone."),
+    "note": ("Trusted: Coq kernel + vm_compute; python generator/renderer; harness c09.rs (dump and fingerprint functions). "
+             "PARTIAL: the engine's RuntimeCommitStateGuard (swap/restore on error and on unwind via Drop) is code, not model - "
+             "covered only by fingerprint equality; hash-derived ids are kept as preimages; the model run uses an "
+             "order-preserving renaming of 256-bit ids. FrontierTickOverflow, GlobalTickOverflow and a missing warp instance "
+             "are modelled and proved but not producible through the public API (theorem + repository unit tests only)."),
+}
